@@ -83,6 +83,9 @@ def p1(ck: Check) -> None:
         if isinstance(n, ast.Subscript) and isinstance(n.value, ast.Name) and n.value.id == state_p \
                 and isinstance(n.slice, ast.Constant):
             read[n.slice.value] = n
+        if isinstance(n, ast.Call) and isinstance(n.func, ast.Attribute) and n.func.attr == "get" and text(n.func.value) == state_p \
+                and n.args and isinstance(n.args[0], ast.Constant):
+            read[n.args[0].value] = n
     probs = []
     if set(saved) != declared:
         probs.append(f"saved keys {sorted(set(saved) ^ declared)} differ from SuccessionDiagramState")
@@ -105,6 +108,8 @@ def p1(ck: Check) -> None:
                 if text(ss.deref(n.value, ss.cfgn(n))) != f"{state_p}['{slot}']":
                     if slot == "node_indices" and _index_recomputed(ss) is not None:
                         continue  # recomputed for the restored network: decided by P3
+                    if slot == "network" and _network_source(ss) is not None:
+                        continue  # the persisted object (or its text as a fallback), cleaned up: decided by P3
                     probs.append(f"slot `{slot}` restored from `{text(n.value)}`")
     ck.ob("P1", ss, ss.f.node, not probs, "; ".join(probs) if probs else "every persisted slot restored from its own key",
           key="restore sources")
@@ -171,6 +176,43 @@ def _text_normalised(prog, fm: FuncModel, e: ast.AST, at, depth=0, env=None) -> 
             return True, f"every return of {g.f.qualname} is in text-normal form"
         return False, f"`{text(e)[:50]}` keeps the variable order of its argument"
     return False, f"`{text(e)[:50]}`"
+
+
+def _network_source(ss: FuncModel):
+    """How __setstate__ obtains self.network: ('object', key) when the persisted network object is used (with the parsed
+    rules as a fallback only when it is missing), ('text', parser) when it is parsed from persisted text; None otherwise."""
+    state_p = [p for p in ss.f.params() if p != "self"][0]
+    ass = [n for n in own_walk(ss.f.node) if isinstance(n, ast.Assign) and text(n.targets[0]) == "self.network"]
+    if len(ass) != 1:
+        return None
+    v = ass[0].value
+    at = ss.cfgn(ass[0])
+    if isinstance(v, ast.Call) and callee_name(v) == "cleanup_network" and len(v.args) == 1:
+        v = v.args[0]
+    kinds = set()
+    srcs = [x for _, x in ss.value_defs(v.id, at)] if isinstance(v, ast.Name) else [v]
+    for x in srcs:
+        if isinstance(x, ast.Call) and isinstance(x.func, ast.Attribute) and x.func.attr == "get" and text(x.func.value) == state_p \
+                and x.args and isinstance(x.args[0], ast.Constant):
+            kinds.add(("object", x.args[0].value))
+        elif isinstance(x, ast.Subscript) and text(x.value) == state_p and isinstance(x.slice, ast.Constant):
+            kinds.add(("object", x.slice.value))
+        elif isinstance(x, ast.Call) and callee_name(x) in TEXT_PARSERS and state_p in text(x):
+            kinds.add(("text", callee_name(x)))
+        else:
+            return None
+    objs = [k for k in kinds if k[0] == "object"]
+    if objs:
+        # the text fallback must only be used when the object is missing
+        texts = [n for n in own_walk(ss.f.node) if isinstance(n, ast.Call) and callee_name(n) in TEXT_PARSERS]
+        for t_ in texts:
+            pc = ss.pc(ss.cfgn(t_))
+            key0 = objs[0][1]
+            guarded = any(a_[0] == "b" and (a_[1].startswith("none:") or f"'{key0}'" in a_[1]) for a_ in logic.atoms(pc))
+            if not guarded or not logic.satisfiable(pc):
+                return None
+        return objs[0]
+    return next(iter(kinds)) if len(kinds) == 1 else None
 
 
 def _saved_state(gs: FuncModel) -> dict | None:
@@ -262,6 +304,13 @@ def p3(ck: Check) -> None:
     ck.ob("P3", en, en.f.node, True, "node_indices keys depend on variable indices of self.network and are persisted",
           key="index sensitivity")
     ss0 = _sd(ck, "__setstate__")
+    src0 = _network_source(ss0)
+    if src0 is not None and src0[0] == "object":
+        okobj = text(saved.get(src0[1])) == "self.network" if saved.get(src0[1]) is not None else False
+        ck.ob("P3", ss0, ss0.f.node, okobj,
+              "the network object itself is persisted and restored: variable order and input variables survive the round trip"
+              if okobj else f"state key '{src0[1]}' is restored as the network but is not saved from self.network",
+              key="network object persisted")
     recomputed = _index_recomputed(ss0)
     if recomputed is not None:
         ok, why = recomputed
@@ -318,7 +367,10 @@ def p3(ck: Check) -> None:
     ck.ob("P3", gs, gs.f.node, not probs, "; ".join(probs) if probs else f"rules exported with {fmt} and parsed back with its inverse",
           key="rules format")
     # can the text format represent every variable of the network?
-    if fmt in LOSSY_FORMATS:
+    if src0 is not None and src0[0] == "object" and text(saved.get(src0[1])) == "self.network":
+        ck.ob("P3", gs, gs.f.node, True, "the persisted network object is authoritative; the text is only a fallback for older states",
+              key="rules format lossless")
+    elif fmt in LOSSY_FORMATS:
         ck.ob("P3", gs, gs.f.node, False,
               f"the network is persisted with {fmt}(): {LOSSY_FORMATS[fmt]}; a diagram over a network with such a variable "
               f"comes back with a network that lacks it (find_node / space keys fail for every space mentioning it)",
